@@ -112,6 +112,21 @@ func readBytes(r io.Reader, size uint64) ([]byte, error) {
 	return buf.Bytes(), nil
 }
 
+// readSignature reads a DER encoded signature. bitcoin.Signature.Deserialize indexes the first two
+// bytes of the body without checking that the length byte allows for them, so check that first.
+func readSignature(r io.Reader, signature *bitcoin.Signature) error {
+	header := make([]byte, 2)
+	if _, err := io.ReadFull(r, header); err != nil {
+		return errors.Wrap(err, "header")
+	}
+
+	if header[0] == 0x30 && header[1] < 2 {
+		return errors.New("Signature too short")
+	}
+
+	return signature.Deserialize(io.MultiReader(bytes.NewReader(header), r))
+}
+
 func NameForMessageType(t uint64) string {
 	messageName, exists := MessageTypeNames[t]
 	if !exists {
@@ -286,7 +301,7 @@ func (m *Register) Deserialize(r io.Reader) error {
 		return errors.Wrap(err, "connection type")
 	}
 
-	if err := m.Signature.Deserialize(r); err != nil {
+	if err := readSignature(r, &m.Signature); err != nil {
 		return errors.Wrap(err, "signature")
 	}
 
@@ -1096,7 +1111,7 @@ func (m *AcceptRegister) Deserialize(r io.Reader) error {
 	}
 	m.MessageCount = messageCount
 
-	if err := m.Signature.Deserialize(r); err != nil {
+	if err := readSignature(r, &m.Signature); err != nil {
 		return errors.Wrap(err, "signature")
 	}
 
